@@ -317,7 +317,7 @@ def gen_type(rnd, tid, effects, full=None):
     abil = {}
     for a in rnd.sample([20, 21, 22, 23], n(2)):
         abil[a] = AbilityData(cooldown_time=rnd.choice([0, 5, 12.5]),
-                              charge_quantity=math.inf if full or rnd.random() < 0.5 else rnd.choice([1, 3, 20]))
+                              charge_quantity=math.inf if full or rnd.random() < 0.5 else rnd.choice([0, 1, 3, 20]))
     return Type(type_id=tid, group_id=_opt(rnd, full, lambda: rnd.choice(GROUP_POOL[1:])),
                 category_id=_opt(rnd, full, lambda: rnd.choice([6, 7, 8, 16, 18])),
                 attrs={a: rnd.choice(VALUES) for a in rnd.sample(ATTR_POOL, n(4))},
